@@ -24,6 +24,31 @@ CHECKS = {
         text="all typed chains up to 3 (thorough 4) links over coroutine / generator-based coroutine / generator / async generator (anext, asend, async for, athrow, aclose) / __await__ adapters x terminators are enumerated by TLC, which also checks that the glue rule table yields the throw path; each is replayed on 3.9-3.12 and the H1 trace of each real extraction must be a behaviour of ExtractIter",
         note="chain length bound; links share four code objects (frames are distinct objects); handlers are added to every link so tracebacks are complete on 3.9-3.11",
         ref="3.7, 4 C03"),
+    "C01": dict(
+        technique="TLA+ small-step semantics of the with/try/loop statement language (WithLang.tla); TLC explores every path of every enumerated program; each behaviour replayed in CPython 3.9-3.12 comparing Frame.contexts with the spec's active/exiting state at every suspension",
+        text="the expectation at each suspension comes from the language semantics, not from bytecode; the semantics itself is validated against the interpreter on every run (enter/exit event order), so only spec == CPython != stackscope is a violation",
+        note="program size bound (families: every exit kind x depth 1..3 x wrappers x async mixes; bodies ending in compound statements; seeded random programs up to 9 statements, <= 5 branch choices); match statements not generated",
+        ref="3.6, 4 C01"),
+    "C02": dict(
+        technique="WithLang.tla behaviours executed without suspension; probes at every statement, inside every enter/exit method and one call below compare extract_since(program frame) with the spec state of that event; 4 carriers x 3.9-3.12",
+        text="every probe site of every path of every program is compared with the specification's observation for that instant",
+        note="as C01; quick tier replays every second behaviour",
+        ref="3.6, 4 C02"),
+    "C06": dict(
+        technique="WithLang.tla + Observe stuttering step: observed runs (all / seeded subsets of suspension points, 1-3 repetitions) must still follow the TLC behaviour event by event and equal the un-observed transcript; harness measures collectability",
+        text="perturbation would make the recorded history diverge from the spec's behaviour; equality of repeated extractions and weakref death of all managers after dropping the stacks are measured on each behaviour",
+        note="refcount / collectability / no-crash clauses are measurements on explored behaviours, not model-level facts (DESIGN.md section 6); quick tier replays every fifth behaviour",
+        ref="3.6, 4 C06"),
+    "C08": dict(
+        technique="WithLang.tla behaviours + systematic sweep of 24 target forms x 6 layouts x arity x sync/async; start_line and varname of every reported context compared with the program AST on 3.9-3.12",
+        text="which manager is reported where comes from the spec; the line of its with keyword and its target come from the AST that was rendered; varname is parsed and compared structurally",
+        note="static leg (stdlib with statements, unexecuted) not claimed; target grammar is the table in harness/progs.py",
+        ref="3.6, 4 C08"),
+    "C20": dict(
+        technique="WithLang.tla behaviours observed in referents mode; the ObsReferents relaxation (ordered super-sequence, extras only entering/exiting manager, is_exiting iff exit in progress) decided per observation on 3.9-3.12",
+        text="same behaviours as C01 with set_trickery_enabled(False); the relaxed acceptance rule is the property's own statement",
+        note="as C01",
+        ref="3.6, 3.10, 4 C20"),
     "C16": dict(
         technique="TLC on ExtractIter with generator-type wrappers (OriginContractX, OutermostIsFirst); origin contract evaluated on every real chain (suspended and running) via API and via the trace spec's verdict; extract_outermost vs extract on given tables",
         text="origin contract and extract_outermost == first frame hold for all tables in the bound on the model (with the F5 excuse named), for every chain of the C03 space on 3.9-3.12 including running carriers, and for thousands of synthetic table sets",
